@@ -572,3 +572,24 @@ Theorem C03_ties_first_registration_interleaved : forall f (adds : list (reg * Z
   = map e_key (filter (same_order k) (map add_entry (first_adds [] adds))).
 Proof. exact ties_first_registration_interleaved. Qed.
 Print Assumptions C03_ties_first_registration_interleaved.
+
+(* ==== ties inside a media subset (Proofs/C03_ties3.v) *)
+Require Import Verif.Proofs.C03_ties3.
+
+(* registrations that all carry accept= a build the subset of a exactly as plain registrations build views *)
+Theorem C03_media_subset_simulation : forall a ao (adds : list (reg * Z * text)) m m',
+  mv_views m = [] -> media_of m a = mv_views m' ->
+  mv_views (fold_left mv_add_args (map (accept_add a ao) adds) m) = [] /\
+  media_of (fold_left mv_add_args (map (accept_add a ao) adds) m) a
+  = mv_views (fold_left mv_add_args (map plain_add adds) m').
+Proof. exact media_subset_simulation. Qed.
+Print Assumptions C03_media_subset_simulation.
+
+(* hence, with overrides interleaved at will, the subset lists equal orders in first-registration order *)
+Theorem C03_media_ties_first_registration : forall f a ao (adds : list (reg * Z * text)) k,
+  Forall (fun x : reg * Z * text => snd (fst x) = f (snd x)) adds ->
+  filter (fun kp : Z * text => Z.eqb (fst kp) k)
+         (map e_key (media_of (fold_left mv_add_args (map (accept_add a ao) adds) mv_empty) a))
+  = map e_key (filter (same_order k) (map add_entry (first_adds [] adds))).
+Proof. exact media_ties_first_registration. Qed.
+Print Assumptions C03_media_ties_first_registration.
